@@ -122,6 +122,26 @@ theorem key_has_every_component (r : KeyRec) (k k' : Key) (f f' : Bool) (h : key
     simp [sameTuple] at this
     simp_all
 
+/-- the two halves together. The flow table is a Go map keyed by the FlowKey struct, i.e. by its five components:
+    any injective numbering `enc` of keys stands for it. A record whose five-tuple differs from that of a held flow
+    leaves that flow exactly as it was; a record of the same five-tuple - in whatever byte form its addresses come - is
+    aggregated into that very flow's entry. -/
+theorem different_five_tuples_never_interact (enc : Key → Nat) (hinj : ∀ a b, enc a = enc b → a = b)
+    (s : State) (r : InRec) (kr kr' : KeyRec) (k k' : Key) (f f' : Bool)
+    (h1 : keyLoop kr = some (k, f)) (h2 : keyLoop kr' = some (k', f')) (hr : r.key = enc k) :
+    (sameTuple kr kr' = false → (ingest s r).find (enc k') = s.find (enc k')) ∧
+    (sameTuple kr kr' = true → enc k' = r.key) := by
+  have hiff := key_distinguishes_exactly_the_five_tuple kr kr' k k' f f' h1 h2
+  constructor
+  · intro hne
+    apply other_keys_unaffected
+    intro he
+    have : k = k' := hinj _ _ (by rw [← hr]; exact he)
+    rw [hiff.mp this] at hne
+    cases hne
+  · intro hsame
+    rw [hr, hiff.mpr hsame]
+
 /-- non-vacuity: two TCP flows between the same hosts and ports, one seen as UDP; an IPv4 flow reported with
     16-byte addresses; a record without a destination address -/
 example :
